@@ -1,17 +1,186 @@
 /-
   C04 — The storage answers every revision query from the committed history.
-  (property theorems only; lemmas live in Proofs/FileStore*.lean)  -- WORK IN PROGRESS
--/
-import Proofs.FileStoreTid
-namespace Props.C04
-open ZodbModel
 
-/-- For EVERY sequence of clock readings (stalled, stepping back, anything) the tids issued by
-    consecutive `tpc_begin`s strictly increase, and all lie above the starting timestamp. -/
+  Property theorems only (helper lemmas live in `Proofs/FileStore*.lean`).
+
+  Spec    `ZodbModel/History.lean`: a storage IS the ordered list of its committed transactions;
+          every query is a list function over that list.
+  Model   `ZodbModel/FileStore.lean`: the pointer structure of FileStorage — committed records with
+          prev / back pointers at computed file offsets, the oid index, staging, two-phase commit,
+          undo and restore records, the index rebuilt by a forward scan — and
+          `ZodbModel/Tid.lean`: tid generation.
+  Claim   for EVERY state reachable through the storage API (`Inv`, preserved by every step),
+          every query computed by pointer chasing equals the same-named `History` function on the
+          abstract history `abs s`; `finish` appends exactly the staged transaction and nothing else
+          changes the history; tids strictly increase for every clock; reopening changes no answer.
+-/
+import Proofs.FileStoreTop
+namespace Props.C04
+open ZodbModel ZodbModel.FileStore
+
+/-! ### every query is answered from the committed history -/
+
+/-- `fs_refines_history`: under the invariant of reachable states, each query of the model of
+    FileStorage (index → prev chain → back-pointer chain; forward iteration with either scan
+    direction of `_skip_to_start`; backward undo search) returns exactly what the list-of-
+    transactions specification returns on `abs s` — answers, `None`s and KeyErrors alike, for all
+    oids (known or unknown), all tid bounds, all sizes and windows. -/
+theorem fs_refines_history {s : FS} (h : Inv s) :
+    (∀ oid, FileStore.load s oid = History.load (abs s) oid) ∧
+    (∀ oid serial, FileStore.loadSerial s oid serial = History.loadSerial (abs s) oid serial) ∧
+    (∀ oid b, FileStore.loadBefore s oid b = History.loadBefore (abs s) oid b) ∧
+    (∀ oid, FileStore.getTid s oid = History.getTid (abs s) oid) ∧
+    FileStore.lastTransaction s = History.lastTransaction (abs s) ∧
+    (∀ oid n, FileStore.history s oid n = History.history (abs s) oid n) ∧
+    (∀ start stop back, FileStore.iterator s start stop back = History.iterator (abs s) start stop) ∧
+    (∀ first last, FileStore.undoLog s first last = History.undoLog (abs s) first last) ∧
+    (∀ n, FileStore.lastInvalidations s n = History.lastInvalidations (abs s) n) ∧
+    (∀ next, FileStore.recordIterNext s next = History.recordIterNext (abs s) next) :=
+  ⟨Proofs.FileStoreRefine.load_refines h,
+   Proofs.FileStoreRefine.loadSerial_refines h,
+   Proofs.FileStoreRefine.loadBefore_refines h,
+   Proofs.FileStoreRefine.getTid_refines h,
+   Proofs.FileStoreRefine2.lastTransaction_refines h,
+   Proofs.FileStoreRefine2.history_refines h,
+   Proofs.FileStoreRefine2.iterator_refines h,
+   Proofs.FileStoreRefine2.undoLog_refines h,
+   Proofs.FileStoreRefine2.lastInvalidations_refines h,
+   Proofs.FileStoreRefine2.recordIterNext_refines h⟩
+
+/-- the crux (DESIGN A.1) on its own: following `prev` from the index entry visits exactly the
+    newest record of the oid in every transaction that has one, newest first -/
+theorem pointer_chase_is_list_spec {s : FS} (h : Inv s) (oid : Nat) :
+    chain s.log (idxGet s.index oid) = Proofs.FileStoreBasic.revRecs s.log oid := by
+  rw [h.index]; exact Proofs.FileStoreBasic.chain_lastPos h.log oid
+
+/-- the abstract history of a reachable state is well formed: tids strictly increase in commit order -/
+theorem history_wf {s : FS} (h : Inv s) : History.WF (abs s) := Proofs.FileStoreTop.abs_wf h
+
+/-! ### every step keeps the invariant; only `finish` changes the history -/
+
+/-- `step_preserves_inv`: begin (explicit tid above the last committed one, or ANY clock reading),
+    store, deleteObject, restore, undo, vote, finish, abort and reopen keep the invariant. -/
+theorem step_preserves_inv {s : FS} (h : Inv s) (op : Op) (hok : OpOk s op) : Inv (step s op).1 :=
+  Proofs.FileStoreStep.step_inv h op hok
+
+/-- the empty storage satisfies the invariant … -/
+theorem init_inv : Inv init := Proofs.FileStoreStep.inv_init
+
+/-- … hence so does every state reachable by API calls that keep the caller's contract. -/
+theorem reachable_inv (ops : List Op) (hok : Proofs.FileStoreTop.RunOk init ops) : Inv (run init ops) :=
+  Proofs.FileStoreTop.run_inv Proofs.FileStoreStep.inv_init ops hok
+
+/-- `step_abs`: a successful `finish` appends exactly the staged transaction (its back pointers
+    resolved in the committed file); every other step — including failed ones, aborts and reopen —
+    leaves the abstract history unchanged. -/
+theorem step_abs (s : FS) (op : Op) :
+    abs (step s op).1 = abs s ∨
+    ∃ st, op = .finish ∧ s.txn = some st ∧ st.voted = true ∧
+      abs (step s op).1 = abs s ++ [absTxn s.log st.toTxn] :=
+  Proofs.FileStoreTop.step_abs s op
+
+/-! ### tids strictly increase, whatever the clock does -/
+
+/-- `tid_strict_mono`: for EVERY sequence of clock readings (stalled, stepping back, anything) the
+    tids issued by consecutive `tpc_begin`s strictly increase and lie above the starting timestamp. -/
 theorem tid_strict_mono (ts : Nat) (clock : List Nat) :
     (Tid.issue ts clock).Pairwise (· < ·) ∧ (∀ t ∈ Tid.issue ts clock, ts < t) ∧
     (Tid.issue ts clock).length = clock.length :=
   ⟨Proofs.FileStoreTid.issue_pairwise ts clock, Proofs.FileStoreTid.issue_gt ts clock,
    Proofs.FileStoreTid.issue_length ts clock⟩
+
+/-- the same on the storage: along every run — whatever `now` each `begin` reads, with aborted
+    transactions in between, undo, restore, reopen — the committed tids strictly increase. -/
+theorem committed_tids_increase (ops : List Op) (hok : Proofs.FileStoreTop.RunOk init ops) :
+    History.WF (abs (run init ops)) :=
+  Proofs.FileStoreTop.abs_wf (reachable_inv ops hok)
+
+/-- a transaction begun at ANY clock reading gets a tid above everything committed so far -/
+theorem begin_tid_above_committed {s : FS} (h : Inv s) (now : Nat) :
+    s.ltid < beginTid s none now ∧ ∀ t ∈ abs s, t.tid < beginTid s none now := by
+  have hlt := Proofs.FileStoreStep.lt_beginTid h none now trivial
+  refine ⟨hlt, ?_⟩
+  intro t ht
+  unfold abs at ht
+  rw [List.mem_reverse, Proofs.FileStoreRefine.absLog_eq_map h.log] at ht
+  obtain ⟨ft, hft, rfl⟩ := List.mem_map.1 ht
+  have := Proofs.FileStoreBasic.tid_le_lastTid h.log hft
+  have := h.ltid
+  show ft.tid < _
+  omega
+
+/-! ### closing and reopening changes no answer -/
+
+/-- `reopen_same`: the index rebuilt by a forward scan of the file binds every oid to the same
+    offset as the index maintained incrementally, `_pos` and `_ltid` are recomputed to the same
+    values, the invariant holds again and the abstract history is the same … -/
+theorem reopen_same {s : FS} (h : Inv s) :
+    (reopen s).log = s.log ∧ (reopen s).pos = s.pos ∧ (reopen s).ltid = s.ltid ∧
+    (∀ oid, idxGet (reopen s).index oid = idxGet s.index oid) ∧
+    abs (reopen s) = abs s ∧ Inv (reopen s) :=
+  have r := Proofs.FileStoreTop.reopen_state h
+  ⟨r.1, r.2.1, r.2.2.1, r.2.2.2.1, Proofs.FileStoreTop.reopen_abs s, Proofs.FileStoreStep.reopen_inv h⟩
+
+/-- … so every query gives the same answer after the reopen as before. -/
+theorem reopen_answers_same {s : FS} (h : Inv s) :
+    (∀ oid, FileStore.load (reopen s) oid = FileStore.load s oid) ∧
+    (∀ oid serial, FileStore.loadSerial (reopen s) oid serial = FileStore.loadSerial s oid serial) ∧
+    (∀ oid b, FileStore.loadBefore (reopen s) oid b = FileStore.loadBefore s oid b) ∧
+    (∀ oid, FileStore.getTid (reopen s) oid = FileStore.getTid s oid) ∧
+    FileStore.lastTransaction (reopen s) = FileStore.lastTransaction s ∧
+    (∀ oid n, FileStore.history (reopen s) oid n = FileStore.history s oid n) ∧
+    (∀ start stop back, FileStore.iterator (reopen s) start stop back = FileStore.iterator s start stop back) ∧
+    (∀ first last, FileStore.undoLog (reopen s) first last = FileStore.undoLog s first last) ∧
+    (∀ n, FileStore.lastInvalidations (reopen s) n = FileStore.lastInvalidations s n) ∧
+    (∀ next, FileStore.recordIterNext (reopen s) next = FileStore.recordIterNext s next) := by
+  have h' := Proofs.FileStoreStep.reopen_inv h
+  have a := fs_refines_history h
+  have b := fs_refines_history h'
+  have e := Proofs.FileStoreTop.reopen_abs s
+  rw [e] at b
+  exact ⟨fun o => (b.1 o).trans (a.1 o).symm,
+         fun o t => (b.2.1 o t).trans (a.2.1 o t).symm,
+         fun o t => (b.2.2.1 o t).trans (a.2.2.1 o t).symm,
+         fun o => (b.2.2.2.1 o).trans (a.2.2.2.1 o).symm,
+         b.2.2.2.2.1.trans a.2.2.2.2.1.symm,
+         fun o n => (b.2.2.2.2.2.1 o n).trans (a.2.2.2.2.2.1 o n).symm,
+         fun x y z => (b.2.2.2.2.2.2.1 x y z).trans (a.2.2.2.2.2.2.1 x y z).symm,
+         fun x y => (b.2.2.2.2.2.2.2.1 x y).trans (a.2.2.2.2.2.2.2.1 x y).symm,
+         fun n => (b.2.2.2.2.2.2.2.2.1 n).trans (a.2.2.2.2.2.2.2.2.1 n).symm,
+         fun n => (b.2.2.2.2.2.2.2.2.2 n).trans (a.2.2.2.2.2.2.2.2.2 n).symm⟩
+
+/-! ### non-vacuity: a concrete reachable state with a back-pointer record and three revisions
+
+    tid 1: create oids 1 and 2 (explicit tid);  tid 2: rewrite oid 1 twice (clock stalled at 0);
+    tid 3: undo tid 2 (clock stepped back) — oid 1 now has three revisions, the newest a back pointer;
+    tid 4: delete oid 2.  Then close and reopen. -/
+def exOps : List Op :=
+  [.begin (some 1) 0 32 [65] [] [], .store 1 0 [7], .store 2 0 [8, 8], .vote, .finish,
+   .begin none 0 32 [] [66] [], .store 1 1 [9], .store 1 1 [10], .vote, .finish,
+   .begin none 0 32 [] [] [], .undo 2, .vote, .finish,
+   .begin none 1 32 [] [] [], .delete 2 1, .vote, .finish,
+   .reopen]
+
+def exS : FS := run init exOps
+
+example : Proofs.FileStoreTop.RunOk init exOps := by
+  simp [exOps, Proofs.FileStoreTop.RunOk, OpOk, statusOk, init]
+
+example : Inv exS := reachable_inv exOps (by
+  simp [exOps, Proofs.FileStoreTop.RunOk, OpOk, statusOk, init])
+
+example : (abs exS).map (·.tid) = [1, 2, 3, 4] := by decide
+example : exS.pos = 403 ∧ exS.ltid = 4 ∧ idxGet exS.index 1 = 264 ∧ idxGet exS.index 2 = 345 := by decide
+example : FileStore.load exS 1 = .ok ([7], 3) := by decide                 -- through the back pointer
+example : FileStore.loadBefore exS 1 3 = .ok (some ([10], 2, some 3)) := by decide   -- last duplicate wins
+example : FileStore.loadBefore exS 1 2 = .ok (some ([7], 1, some 2)) := by decide
+example : FileStore.loadBefore exS 1 1 = .ok none := by decide
+example : FileStore.loadSerial exS 1 3 = .ok [7] := by decide
+example : FileStore.load exS 2 = .error .keyError := by decide             -- deleted
+example : FileStore.loadBefore exS 2 4 = .ok (some ([8, 8], 1, some 4)) := by decide
+example : FileStore.load exS 3 = .error .keyError := by decide             -- unknown
+example : (FileStore.iterator exS (some 3) (some 3) true).map (·.recs) = [[⟨1, some [7], some 1⟩]] := by
+  decide
+example : (FileStore.undoLog exS 0 2).map (·.tid) = [4, 3] := by decide
 
 end Props.C04
